@@ -100,24 +100,27 @@ Definition ctx_restored (m0 : mstate) (cancelled_by_handler : bool) (v : vstate)
 
 Definition cancels (c : call) : bool := existsb (fun a => match a with ACancel => true | _ => false end) (c_pre c).
 
-(** chain of simple middlewares, one handler call *)
-Definition accept_simple (mws : list mw) (s : script) (w0 : world)
-           (tr : list event) (r : outcome) (v : vstate) : bool :=
+(** chain of simple middlewares, one handler call.  The clauses, in order:
+    0 the handler is called exactly once; 1 it sees the message as it was plus deadline / Ack;
+    2 error identity / panic value unchanged but for Recoverer / IgnoreErrors; 3 outputs unchanged
+    but for the correlation id; 4 the message context afterwards is the context before;
+    5 settlement; 6 metadata unchanged but for the delay schedule *)
+Definition dummy_seen : vstate := VSt [] false false None Unsettled.
+Definition clauses_simple (mws : list mw) (s : script) (w0 : world)
+           (tr : list event) (r : outcome) (v : vstate) : list bool :=
   let c := nth_last default_call s (w_calls w0) in
   let m0 := w_msg w0 in
   let m1 := fold_left do_action (c_pre c)
                       (if has_ack mws then set_settle m0 (ack_settle (m_settle m0)) else m0) in
-  match tr with
-  | [ECall k seen] =>
-      Nat.eqb k (w_calls w0) && seen_ok mws m0 seen                     (* called exactly once *)
-      && K_eqb (rkind r) (eff mws (rkind (c_res c)))                     (* error / panic value unchanged but for the effect *)
-      && outs_ok (has_corr mws) (mget K_CORR (m_meta m1)) (outs_of r)
-                 (outs_of (c_res c))
-      && ctx_restored m0 (cancels c) v
-      && settle_eqb (v_settle v) (m_settle m1)
-      && meta_equiv (v_meta v) (exp_meta mws (rkind (c_res c)) (m_meta m1))
-  | _ => false
-  end.
+  [ match tr with [ECall k _] => Nat.eqb k (w_calls w0) | _ => false end;
+    match tr with ECall _ seen :: _ => seen_ok mws m0 seen | _ => false end;
+    K_eqb (rkind r) (eff mws (rkind (c_res c)));
+    outs_ok (has_corr mws) (mget K_CORR (m_meta m1)) (outs_of r) (outs_of (c_res c));
+    ctx_restored m0 (cancels c) v;
+    settle_eqb (v_settle v) (m_settle m1);
+    meta_equiv (v_meta v) (exp_meta mws (rkind (c_res c)) (m_meta m1)) ].
+Definition all_true (l : list bool) : bool := forallb (fun b => b) l.
+Definition accept_simple mws s w0 tr r v : bool := all_true (clauses_simple mws s w0 tr r v).
 
 (** chain [outer ++ MRetry maxr :: inner], outer and inner simple *)
 Fixpoint split_retry (mws : list mw) : list mw * option (Z * list mw) :=
@@ -144,18 +147,32 @@ Definition first_seen (tr : list event) : option vstate :=
 Definition bare_retry (maxr : Z) (inner : list mw) (s : script) (w0 : world) : world * outcome :=
   mw_sem repaired (MRetry maxr) (scripted (map_res (effo inner) s)) (W (w_msg w0) (w_calls w0) []).
 
-Definition accept_retry (outer : list mw) (maxr : Z) (inner : list mw) (s : script) (w0 : world)
-           (tr : list event) (r : outcome) (v : vstate) : bool :=
+(** clauses: 0 as many attempts as the bare Retry makes on the same handler; 1 consecutive call
+    numbers; 2 the same OnRetryHook sequence; 3 result kind; 4 first attempt sees deadline / Ack;
+    5 the message context afterwards is the context before *)
+Definition clauses_retry (outer : list mw) (maxr : Z) (inner : list mw) (s : script) (w0 : world)
+           (tr : list event) (r : outcome) (v : vstate) : list bool :=
   let '(wb, rb) := bare_retry maxr inner s w0 in
-  Nat.eqb (ncalls tr) (w_calls wb - w_calls w0)                         (* same number of attempts *)
-  && call_indices_from (w_calls w0) tr
-  && list_eqb Z.eqb (hooks tr) (hooks (w_trace wb))
-  && K_eqb (rkind r) (eff outer (rkind rb))
-  && match first_seen tr with Some seen => seen_ok (outer ++ inner) (w_msg w0) seen | None => false end
-  && Bool.eqb (v_same v) (v_same (view (w_msg w0)))                      (* context restored *)
-  && Bool.eqb (v_done v) (ctx_done (w_msg wb))
-  && optZ_eqb (v_deadline v) (v_deadline (view (w_msg w0))).
+  [ Nat.eqb (ncalls tr) (w_calls wb - w_calls w0);
+    call_indices_from (w_calls w0) tr;
+    list_eqb Z.eqb (hooks tr) (hooks (w_trace wb));
+    K_eqb (rkind r) (eff outer (rkind rb));
+    match first_seen tr with Some seen => seen_ok (outer ++ inner) (w_msg w0) seen | None => false end;
+    Bool.eqb (v_same v) (v_same (view (w_msg w0)))
+    && Bool.eqb (v_done v) (ctx_done (w_msg wb))
+    && optZ_eqb (v_deadline v) (v_deadline (view (w_msg w0))) ].
+Definition accept_retry outer maxr inner s w0 tr r v : bool :=
+  all_true (clauses_retry outer maxr inner s w0 tr r v).
 
+(** (retry?, clause results) *)
+Definition clauses (mws : list mw) (s : script) (w0 : world)
+           (tr : list event) (r : outcome) (v : vstate) : bool * list bool :=
+  match split_retry mws with
+  | (_, None) => (false, clauses_simple mws s w0 tr r v)
+  | (outer, Some (maxr, inner)) =>
+      if forallb is_simple inner then (true, clauses_retry outer maxr inner s w0 tr r v)
+      else (true, [])
+  end.
 Definition accept (mws : list mw) (s : script) (w0 : world)
            (tr : list event) (r : outcome) (v : vstate) : bool :=
   match split_retry mws with
